@@ -91,12 +91,32 @@ const maxRefSteps = 3_000_000
 
 // judge compares one engine run with the reference rewriting of src.
 func judge(c *gen.Change, pat *ref.Pattern, src string, run engineRun) semVerdict {
-	return judgeSeq([]*ref.Pattern{pat}, src, run)
+	return judgeSeq([]*ref.Pattern{pat}, src, run, addedImports(c)...)
+}
+
+const addedImportPath = "example.com/added/newpkg"
+
+// withAddedImport gives the change a '+import' line (no guard: it applies to every file).
+func withAddedImport(c *gen.Change) {
+	c.Guards = []gen.Line{gen.L('+', `import "`+addedImportPath+`"`), gen.L(' ', "")}
+}
+
+// addedImports lists the imports the changes' '+import' lines add.
+func addedImports(cs ...*gen.Change) []ref.Import {
+	var out []ref.Import
+	for _, c := range cs {
+		for _, l := range c.Guards {
+			if l.Prefix == '+' && strings.HasPrefix(l.Text, "import \"") {
+				out = append(out, ref.Import{Path: strings.Trim(strings.TrimPrefix(l.Text, "import "), "\"")})
+			}
+		}
+	}
+	return out
 }
 
 // judgeSeq judges a patch made of several changes applied in order. Stages after the first
 // are only judged when the earlier stages left no don't-care alternatives.
-func judgeSeq(pats []*ref.Pattern, src string, run engineRun) semVerdict {
+func judgeSeq(pats []*ref.Pattern, src string, run engineRun, added ...ref.Import) semVerdict {
 	var v semVerdict
 	in, _, _, err := ref.ParseFile([]byte(src), false)
 	if err != nil {
@@ -138,12 +158,21 @@ func judgeSeq(pats []*ref.Pattern, src string, run engineRun) semVerdict {
 		return v
 	}
 	printerLoses := ref.PrinterLosesParens(exp)
+	exp0 := exp
 	exp = ref.StripParens(exp)
 	v.Out = run.Out
 	if run.Pan != "" {
 		v.Class = "engine-panic:" + core.PanicSignature(run.Pan)
 		v.Detail = run.Pan
 		return v
+	}
+	if run.Err != "" && !strings.HasPrefix(run.Err, "patch rejected") && rw.St.Sites > 0 {
+		// the reference's expected tree may not be printable as valid Go (a call in a type position, a
+		// composite literal exposed in a control clause): then an error report is what C07 demands
+		if ok, _ := ref.Printable(exp); !ok {
+			v.Inconcl = "expected rewrite is not printable as valid Go and the engine reported an error"
+			return v
+		}
 	}
 	if run.Err != "" {
 		v.Class = "engine-error"
@@ -163,6 +192,10 @@ func judgeSeq(pats []*ref.Pattern, src string, run engineRun) semVerdict {
 	if rw.St.Sites == 0 && rw.St.Misfit == 0 && !v.Changed {
 		return v
 	}
+	if rw.St.Sites > 0 {
+		// '+import' lines of the patch: present after the change applied
+		in.Imports = append(in.Imports, added...)
+	}
 	if ref.Matches(out.Tree, exp) && sameImports(in.Imports, out.Imports) {
 		return v
 	}
@@ -173,6 +206,16 @@ func judgeSeq(pats []*ref.Pattern, src string, run engineRun) semVerdict {
 		v.Class = "imports-changed"
 		v.Detail = fmt.Sprintf("imports %v -> %v", in.Imports, out.Imports)
 		return v
+	}
+	if !printerLoses && rw.St.Sites > 0 {
+		// go/printer cannot represent every tree (a channel type as the operand of an index expression, ...):
+		// if printing the expected tree and parsing it back gives another tree, no output could have matched
+		if ok, txt := ref.Printable(exp0); ok {
+			if back, _, _, err := ref.ParseFile([]byte(txt), true); err == nil && !ref.Matches(back.Tree, exp) {
+				v.Inconcl = "go/printer cannot represent the expected tree"
+				return v
+			}
+		}
 	}
 	if printerLoses {
 		v.Class = "printer-drops-needed-parens"
